@@ -49,6 +49,30 @@ def run_case(cs, ctx):
         for k in ('lq', 'lt', 'llq'):
             v.pop(k, None)
         ctx.cov('student_ranking_256_projects_of_one_lecturer')
+    if cs % 40 == 13 and mp in ('hr', 'sm'):
+        # many rankable agents, short lists (length between 3 and n2/32)
+        n2 = rng.choice([96, 128, 200, 320])
+        ln = rng.randint(3, max(3, n2 // 32))
+        v.update({'pmin': ln, 'pmax': ln, 'numinst': 1})
+        if mp == 'sm':
+            v['n1'] = n2
+        else:
+            v.update({'n1': rng.randint(60, 150), 'n2': n2, 'uq': n2 + rng.randint(0, 40)})
+            v.pop('lq', None)
+        ctx.cov('ninety_six_or_more_rankable_agents_short_lists')
+    if cs % 40 == 14 and mp == 'spa':
+        # lecturers numbered beyond 256, each with about two projects; students rank 25 projects
+        n3 = rng.randint(270, 300)
+        v.update({'n1': 50, 'n2': 2 * n3, 'n3': n3, 'pmin': 25, 'pmax': 25, 'uq': 2 * n3 + 10, 'luq': n3 + 60, 'numinst': 1})
+        for k in ('lq', 'lt', 'llq'):
+            v.pop(k, None)
+        ctx.cov('more_than_256_lecturers')
+    if cs % 40 == 15 and mp == 'hr':
+        # one hospital ranked by 258..330 residents, dense ties on the second side
+        n1 = rng.randint(258, 330)
+        v.update({'n1': n1, 'n2': 1, 'pmin': 1, 'pmax': 1, 'uq': n1 + 5, 'numinst': 1, 't2': rng.choice([1.0, 0.85, 0.5])})
+        v.pop('lq', None)
+        ctx.cov('second_side_list_of_258_or_more_entries_with_dense_ties')
     if ctx.shard == 0 and not getattr(ctx, '_did_65k', False) and mp == 'hr':
         ctx._did_65k = True
         v.update({'n1': 65600, 'n2': 3, 'pmin': 1, 'pmax': 2, 'uq': 65600, 'numinst': 1, 't1': 0.0, 't2': 0.0})
